@@ -63,11 +63,13 @@ theorem fromFile_window (data : Bits) (off len : Nat) (h : off + len ≤ data.le
     · simpa [fromFile] using hs
     · rw [hl]; simp [window]
   · have hne : ¬ ((off : Int) = 0) := by omega
+    have hneg : ¬ ((off : Int) < 0) := by omega
+    have hgt : ¬ ((off : Int) > (data.length : Int)) := by omega
     have hc : (off : Int) + (len : Int) = ((off + len : Nat) : Int) := by push_cast; rfl
     refine ⟨ofBits (window data off len), ?_, (ofBits_inv _).2, (ofBits_inv _).1⟩
     have hlen : ((List.take (off + len - off) (List.drop off data)).length : Int) = (len : Int) := by
       simp only [List.length_take, List.length_drop]; omega
-    simp only [fromFile, Option.getD_some, hne, if_false, hc, getSlice_nat, hlen, ne_eq, not_true_eq_false]
+    simp only [fromFile, Option.getD_some, hneg, hgt, hne, if_false, hc, getSlice_nat, hlen, ne_eq, not_true_eq_false]
     simp only [window, Nat.add_sub_cancel_left]
 
 theorem fromFile_to_end (data : Bits) (off : Nat) (h : off ≤ data.length) :
@@ -76,9 +78,10 @@ theorem fromFile_to_end (data : Bits) (off : Nat) (h : off ≤ data.length) :
   · subst h0
     exact ⟨⟨data, none⟩, by simp [fromFile, fromBuffer], by simp [logical], Or.inl rfl⟩
   · have hne : ¬ ((off : Int) = 0) := by omega
-    have h2 : ¬ ((off : Int).toNat > data.length) := by simp only [Int.toNat_natCast]; omega
+    have hneg : ¬ ((off : Int) < 0) := by omega
+    have hgt : ¬ ((off : Int) > (data.length : Int)) := by omega
     refine ⟨ofBits (data.drop off), ?_, (ofBits_inv _).2, (ofBits_inv _).1⟩
-    simp only [fromFile, Option.getD_some, hne, if_false, h2, getSlice_nat_none]
+    simp only [fromFile, Option.getD_some, hne, hneg, hgt, if_false, getSlice_nat_none]
     rfl
 
 
@@ -87,15 +90,18 @@ theorem fromBytes_window (data : Bits) (off len : Nat) (h : off + len ≤ data.l
       logical s = window data off len ∧ StoreInv s := by
   have hc : (off : Int) + (len : Int) = ((off + len : Nat) : Int) := by push_cast; rfl
   have h1 : ¬ ((len : Int) + (off : Int) > (data.length : Int)) := by omega
+  have hneg : ¬ ((off : Int) < 0) := by omega
+  have hgt : ¬ ((off : Int) > (data.length : Int)) := by omega
+  have hld : decide ((len : Int) < 0) = false := decide_eq_false (by omega)
   refine ⟨ofBits (window data off len), ?_, (ofBits_inv _).2, (ofBits_inv _).1⟩
-  simp only [fromBytes, Option.getD_some, h1, if_false, hc, getSlice_nat]
+  simp only [fromBytes, Option.getD_some, hneg, hgt, hld, Bool.false_eq_true, h1, if_false, hc, getSlice_nat]
   simp only [window, Nat.add_sub_cancel_left]
   rfl
 
 theorem fromBytes_beyond (data : Bits) (off len : Nat) (h : data.length < off + len) :
     fromBytes data (some (off : Int)) (some (len : Int)) = .error .value := by
   have h1 : ((len : Int) + (off : Int) > (data.length : Int)) := by omega
-  simp only [fromBytes, Option.getD_some, h1, if_true]
+  simp only [fromBytes, Option.getD_some, h1, if_true, ite_self]
 
 /-- The BytesIO route (byte window first, then a bit slice inside it) selects the same window. -/
 theorem fromBytesIO_window (data : Bits) (off len : Nat) (h8 : 8 ∣ data.length) (h : off + len ≤ data.length) :
@@ -107,8 +113,11 @@ theorem fromBytesIO_window (data : Bits) (off len : Nat) (h8 : 8 ∣ data.length
       = (((len + off / 8 * 8 + off % 8 + 7) / 8 * 8 : Nat) : Int) := by push_cast; omega
   have ho : (off : Int) % 8 = ((off % 8 : Nat) : Int) := by push_cast; rfl
   have hol : ((off % 8 : Nat) : Int) + (len : Int) = ((off % 8 + len : Nat) : Int) := by push_cast; rfl
+  have hneg : ¬ ((off : Int) < 0) := by omega
+  have hgt : ¬ ((off : Int) > (data.length : Int)) := by omega
+  have hld : decide ((len : Int) < 0) = false := decide_eq_false (by omega)
   refine ⟨ofBits (window data off len), ?_, (ofBits_inv _).2, (ofBits_inv _).1⟩
-  simp only [fromBytesIO, Option.getD_some, h1, if_false, hb]
+  simp only [fromBytesIO, Option.getD_some, hneg, hgt, hld, Bool.false_eq_true, h1, if_false, hb]
   simp only [ha, ho, hol, getSlice_nat]
   rw [bytesIO_collapse data off len _ (by omega)]
   rfl
@@ -119,8 +128,10 @@ theorem fromBitarray_window (data : Bits) (off len : Nat) (h : off + len ≤ dat
   have hc : (off : Int) + (len : Int) = ((off + len : Nat) : Int) := by push_cast; rfl
   have h0 : ¬ ((off : Int) > (data.length : Int)) := by omega
   have h1 : ¬ (((off + len : Nat) : Int) > (data.length : Int)) := by omega
+  have hneg : ¬ ((off : Int) < 0) := by omega
+  have hld : decide ((len : Int) < 0) = false := decide_eq_false (by omega)
   refine ⟨ofBits (window data off len), ?_, (ofBits_inv _).2, (ofBits_inv _).1⟩
-  simp only [fromBitarray, Option.getD_some, h0, if_false, hc, h1, getSlice_nat]
+  simp only [fromBitarray, Option.getD_some, hneg, hld, Bool.false_eq_true, h0, if_false, hc, h1, getSlice_nat]
   simp only [window, Nat.add_sub_cancel_left]
   rfl
 
@@ -226,31 +237,47 @@ theorem limited_store_distinguishable :
 
 theorem fromFile_beyond (data : Bits) (off len : Nat) (hoff : 0 < off) (h : data.length < off + len) :
     fromFile data (some (off : Int)) (some (len : Int)) = .error .value := by
-  sorry
+  have hne : ¬ ((off : Int) = 0) := by omega
+  have hneg : ¬ ((off : Int) < 0) := by omega
+  have hc : (off : Int) + (len : Int) = ((off + len : Nat) : Int) := by push_cast; rfl
+  by_cases hgt : (off : Int) > (data.length : Int)
+  · simp only [fromFile, Option.getD_some, hneg, hne, hgt, if_false, if_true]
+  · have hlen : ((List.take (off + len - off) (List.drop off data)).length : Int) ≠ (len : Int) := by
+      simp only [List.length_take, List.length_drop]; omega
+    simp only [fromFile, Option.getD_some, hneg, hne, hgt, if_false, hc, getSlice_nat, ne_eq, hlen,
+      not_false_eq_true, if_true]
 
 theorem fromFile_negative_offset (data : Bits) (off : Int) (l : Option Int) (h : off < 0) :
     fromFile data (some off) l = .error .value := by
-  sorry
+  simp only [fromFile, Option.getD_some, h, if_true]
 
 theorem fromBytes_negative (data : Bits) (off : Int) (l : Option Int)
     (h : off < 0 ∨ (∃ n, l = some n ∧ n < 0)) : fromBytes data (some off) l = .error .value := by
-  sorry
+  rcases h with h | ⟨n, rfl, hn⟩
+  · cases l <;> simp only [fromBytes, Option.getD_some, h, if_true]
+  · simp only [fromBytes, Option.getD_some, hn, decide_true, if_true, ite_self]
 
 theorem fromBytes_offset_beyond (data : Bits) (off : Int) (l : Option Int) (h : (data.length : Int) < off) :
     fromBytes data (some off) l = .error .value := by
-  sorry
+  have hg : off > (data.length : Int) := h
+  cases l <;> simp only [fromBytes, Option.getD_some, hg, if_true, ite_self]
 
 theorem fromBytesIO_negative (data : Bits) (off : Int) (l : Option Int)
     (h : off < 0 ∨ (∃ n, l = some n ∧ n < 0)) : fromBytesIO data (some off) l = .error .value := by
-  sorry
+  rcases h with h | ⟨n, rfl, hn⟩
+  · cases l <;> simp only [fromBytesIO, Option.getD_some, h, if_true]
+  · simp only [fromBytesIO, Option.getD_some, hn, decide_true, if_true, ite_self]
 
 theorem fromBytesIO_offset_beyond (data : Bits) (off : Int) (l : Option Int) (h : (data.length : Int) < off) :
     fromBytesIO data (some off) l = .error .value := by
-  sorry
+  have hg : off > (data.length : Int) := h
+  cases l <;> simp only [fromBytesIO, Option.getD_some, hg, if_true, ite_self]
 
 theorem fromBitarray_negative (data : Bits) (off : Int) (l : Option Int)
     (h : off < 0 ∨ (∃ n, l = some n ∧ n < 0)) : fromBitarray data (some off) l = .error .value := by
-  sorry
+  rcases h with h | ⟨n, rfl, hn⟩
+  · simp only [fromBitarray, Option.getD_some, h, if_true]
+  · simp only [fromBitarray, Option.getD_some, hn, decide_true, if_true, ite_self]
 
 /-! ### non-vacuity -/
 example : (fromFile [true,true,true,true,false,false,false,false,true,false,true,false] (some 0) (some 6)).map logical
